@@ -99,7 +99,7 @@ theorem rebalanceOne_inv (env : Env) {s : State} (h : InvNum s) (u : Nat) :
     · have h1 := tryShrink_inv env u (b.stack.length + 1) s h
       split
       · split
-        · exact h1.frame rfl rfl rfl rfl rfl rfl rfl rfl
+        · exact h1.frame rfl rfl rfl rfl rfl rfl rfl
         · exact h1
       · exact h1
     · split
@@ -116,10 +116,10 @@ theorem rebalance_inv (env : Env) {s : State} (h : InvNum s) : InvNum (rebalance
   unfold rebalance
   split
   · exact h
-  · have h0 : InvNum { s with overQuota := [] } := h.frame rfl rfl rfl rfl rfl rfl rfl rfl
+  · have h0 : InvNum { s with overQuota := [] } := h.frame rfl rfl rfl rfl rfl rfl rfl
     have h1 := foldl_inv (rebalanceOne env) (fun s a hs => rebalanceOne_inv env hs a)
       (s.blocks.map (·.uid)) _ h0
-    exact h1.frame rfl rfl rfl rfl rfl rfl rfl rfl
+    exact h1.frame rfl rfl rfl rfl rfl rfl rfl
 
 /-! ### `_get_block` -/
 
@@ -157,7 +157,7 @@ theorem getBlock_inv {s : State} (h : InvNum s) (name : Nat) : InvNum (getBlock 
         · simp at hb; rw [hb]; simp
       · have := h.acc
         unfold usage at *
-        show s.cur + s.phantom = sumInt (List.map Block.size (s.blocks ++ [_])) + _
+        show s.cur = sumInt (List.map Block.size (s.blocks ++ [_])) + _
         rw [sumInt_map_append_single]
         simp only [Block.size, List.length_nil]
         omega
@@ -193,7 +193,7 @@ theorem acqSched_inv (env : Env) {s : State} (h : InvNum s) (u : Nat) (b : Block
         have h3 : InvNum s3 := e ▸ ht
         split
         · exact h3
-        · exact h3.frame rfl rfl rfl rfl rfl rfl rfl rfl
+        · exact h3.frame rfl rfl rfl rfl rfl rfl rfl
     · split
       · exact tryStealConn_inv env u s.overQuota s h
       · exact h
@@ -213,7 +213,7 @@ theorem acquire_inv (env : Env) {s : State} (h : InvNum s) (r name : Nat) :
     InvNum (acquire env s r name) := by
   unfold acquire
   have h0 : InvNum (maybeTick { s with nacq := s.nacq + 1 }) :=
-    maybeTick_inv (h.frame rfl rfl rfl rfl rfl rfl rfl rfl)
+    maybeTick_inv (h.frame rfl rfl rfl rfl rfl rfl rfl)
   have h1 := getBlock_inv h0 name
   have h2 : InvNum ((getBlock (maybeTick { s with nacq := s.nacq + 1 }) name).1.mod
       (getBlock (maybeTick { s with nacq := s.nacq + 1 }) name).2
@@ -253,8 +253,7 @@ theorem relRoute_inv (env : Env) {s : State} (h : InvNum s) (u c : Nat) (d : Boo
 
 theorem unlend_inv {s : State} (h : InvNum s) (r u c : Nat) : InvNum (unlend s r u c) := by
   unfold unlend
-  exact (h.modN _ _ (by intro b; exact ⟨rfl, map_fst_setFlag _ _ _, rfl⟩)).frame
-    rfl rfl rfl rfl rfl rfl rfl rfl
+  exact (h.modN _ _ (by intro b; exact ⟨rfl, map_fst_setFlag _ _ _, rfl⟩)).frame rfl rfl rfl rfl rfl rfl rfl
 
 theorem release_inv (env : Env) {s : State} (h : InvNum s) (r : Nat) (d : Bool) :
     InvNum (release env s r d) := by
@@ -262,7 +261,7 @@ theorem release_inv (env : Env) {s : State} (h : InvNum s) (r : Nat) (d : Bool) 
   split
   · exact h.fail _
   · have h0 : InvNum { s with holders := s.holders.filter (·.req != r) } :=
-      h.frame rfl rfl rfl rfl rfl rfl rfl rfl
+      h.frame rfl rfl rfl rfl rfl rfl rfl
     simp only
     split
     · exact h0.fail _
